@@ -98,6 +98,8 @@ UNARY = [
     ("pluck_0", dict(kind="pluck", lits=[0]), ("t2",), _const("i")),
     ("pluck_1", dict(kind="pluck", lits=[1]), ("t2",), _const("i")),
     ("pluck_list", dict(kind="pluck", lits=[1, 0], b1=True), ("t2",), _const("t2")),
+    ("pluck_list1", dict(kind="pluck", lits=[1], b1=True), ("t2",), _const("tv")),      # a list pick of length one yields a 1-tuple
+    ("pluck_list3", dict(kind="pluck", lits=[0, 1, 0], b1=True), ("t2",), _const("tv")),
     ("collect", dict(kind="collect"), ANY, _part_out(3)),
     ("union1", dict(kind="union"), ANY, _same),
     ("stream", dict(kind="stream"), ANY, _same),
